@@ -1,3 +1,4 @@
+import Driver.C01
 import Driver.C10
 import Driver.C12
 import Driver.C14
@@ -17,6 +18,9 @@ open Driver
 
 def dispatch (prop : String) (args : List String) (impl : String) : Verdict :=
   match prop with
+  | "C01" => C01.handleC01 args impl
+  | "C03" => C01.handleC03 args impl
+  | "C05" => C01.handleC05 args impl
   | "C10" => C10.handle args impl
   | "C11" => C10.handle args impl
   | "C12" => C12.handle args impl
